@@ -613,7 +613,7 @@ func desugar(s string) string {
 	return qualifySpec(r)
 }
 
-var reSpecFn = regexp.MustCompile(`(^|[^A-Za-z0-9_.])(EqT|EqTP|Eq|SameArray|Same|Fresh|Old|Len|At|Perm|Sorted|Calls|NoCalls|Unchanged|Rest|Pulled|Val|IsNil|Zero|NonNil|SeqEq|Panics|PanicValue|Returns|Deep|Content|MapGet|MapHas|MapLen|Disjoint|Reach|IterSeq|IterLen|IterPosAtEntry|IterPos|IterAt|Result)\(`)
+var reSpecFn = regexp.MustCompile(`(^|[^A-Za-z0-9_.])(EqT|Eq|SameArray|Same|Fresh|Calls|NoCalls|Unchanged|Panics|AtomicWrites|CalledOnce|TraceLen|TraceCall|Holding|Spawned|RunSpawned|IterLen|IterPosAtEntry|IterPos)\(`)
 
 func qualifySpec(s string) string {
 	for {
